@@ -141,7 +141,11 @@ func vbuild(depth int, maxLeaf int, forced int) (Seq[int], []int) {
 		return Join(s, vSel), out
 	case vkPlus:
 		a, ra := vbuild(depth-1, maxLeaf, -1)
-		b, rb := vbuild(depth-1, maxLeaf, -1)
+		rd := depth - 1
+		if vrt.Param("spine", 0) == 1 {
+			rd = 0 // left-spine trees: the right operand of a Plus is a leaf
+		}
+		b, rb := vbuild(rd, maxLeaf, -1)
 		return Plus(a, b), append(append([]int(nil), ra...), rb...)
 	}
 	vrt.Assume(false)
